@@ -62,6 +62,10 @@ the line).
 of `Props/C01Weighted.lean`, `C12Weighted.lean`, `C14Weighted.lean`): `ok := gMod` (the domain on which
 the theorems trust the laws), and, separately, no guard (`gAll` / `gNotNaN`) — see the last section.
 
+`Round.Model val fin u lo hi N` (`Lemmas/RoundModel.lean`, the standard model of floating-point arithmetic
+behind `Props/C02Rounding.lean`): tested with EXACT dyadic arithmetic on the decoded values, on
+`Grids.full` plus threshold values and full-range random values (`roundGrid`) — see the last section.
+
 Not sampled (not statements about float values): bundles about an abstract relation `R`
 (`RLaws`, `LWCompat`), about exact fields (`ExactLaws`, `FieldLaws`, `OrderNum`, `BeqExact`), and
 data predicates (`NoNaN`, `InitNoNaN`, `NoNaNRun`; `InfTop`'s quantification over matrix entries is
@@ -1018,5 +1022,260 @@ lt b t = false → lt (mul half (add a b)) t = false` (what `ChainReducibleOn.ge
   return r
 
 end HalfAdd
+
+/-! ## `Lemmas/RoundModel.lean` (`Round.Model val fin u lo hi N`: THE STANDARD MODEL OF FLOATING-POINT ARITHMETIC)
+
+The theorems of `Props/C02Rounding.lean` assume `Round.Model`; that IEEE binary64 / binary32 satisfy it
+with `fin` = "finite", `val` = the real value, `u = 2⁻⁵³ / 2⁻²⁴`, `lo = 2⁻¹⁰²² / 2⁻¹²⁶`,
+`hi = (2 − 2⁻⁵²)·2¹⁰²³ / (2 − 2⁻²³)·2¹²⁷`, `N = 2⁵³ / 2²⁴` is TRUSTED.  Here it is TESTED, with EXACT
+arithmetic on the values: every finite float is a dyadic rational `m·2ᵉ` (`Dy`, decoded from the bit
+pattern: sign, exponent, mantissa, subnormals included; NaN and `±∞` have no value = are not `fin`), and
+sums, products, comparisons of dyadics are computed exactly on `Int`.
+
+* `val (a ∘ b) = x·(1+δ)`, `|δ| ≤ u`   is tested as   `|val (a ∘ b) − x| ≤ u·|x|`   (`x` the exact result;
+  for `x = 0` both say `val (a ∘ b) = 0`);
+* for division (`x = va/vb` is not dyadic) everything is multiplied through by `|vb| > 0`:
+  `|q·vb − va| ≤ u·|va|` with `q = val (div a b)`, and the range guard `lo ≤ |va/vb| ≤ hi` is
+  `lo·|vb| ≤ |va| ≤ hi·|vb|`.
+
+The guards are those of `Round.Model`: arguments finite, exact result `InRange lo hi` (`= 0` or
+`lo ≤ |x| ≤ hi`), for `div` also `val b ≠ 0`.  `guarded := false` drops the `InRange` guard (finite
+arguments, any exact result): expected to FAIL (overflow to `±∞`, underflow to a subnormal or to `0`),
+which documents that the guard is necessary. -/
+
+/-- The dyadic rational `m · 2ᵉ`. -/
+structure Dy where
+  m : Int
+  e : Int
+  deriving Inhabited
+
+namespace Dy
+
+@[inline] def two (n : Nat) : Int := Int.ofNat (1 <<< n)
+
+/-- Both mantissas at the common exponent `min a.e b.e`. -/
+@[inline] def align (a b : Dy) : Int × Int × Int :=
+  if a.e ≤ b.e then (a.m, b.m * two (b.e - a.e).toNat, a.e)
+  else (a.m * two (a.e - b.e).toNat, b.m, b.e)
+
+def add (a b : Dy) : Dy := let (x, y, e) := align a b; ⟨x + y, e⟩
+def sub (a b : Dy) : Dy := let (x, y, e) := align a b; ⟨x - y, e⟩
+def mul (a b : Dy) : Dy := ⟨a.m * b.m, a.e + b.e⟩
+def abs (a : Dy) : Dy := ⟨Int.ofNat a.m.natAbs, a.e⟩
+/-- `a · 2ᵏ` -/
+def scale2 (a : Dy) (k : Int) : Dy := ⟨a.m, a.e + k⟩
+def le (a b : Dy) : Bool := let (x, y, _) := align a b; decide (x ≤ y)
+def lt (a b : Dy) : Bool := let (x, y, _) := align a b; decide (x < y)
+def eq (a b : Dy) : Bool := let (x, y, _) := align a b; x == y
+def isZero (a : Dy) : Bool := a.m == 0
+def ofNat (k : Nat) : Dy := ⟨Int.ofNat k, 0⟩
+
+end Dy
+
+section RoundModel
+variable {α : Type} [Num α] [Sample α]
+
+local instance : Inhabited α := ⟨Num.ofNat 0⟩
+
+/-- `val`: the exact value of a finite float, `none` for NaN and `±∞` (`fin a := (dyOf? a).isSome`).
+`val (−0) = val (+0) = 0`. -/
+def dyOf? (a : α) : Option Dy :=
+  let bits := (Sample.bits a).toNat
+  let M := Sample.mant α
+  let E := Sample.expBits α
+  let mant := bits % 2 ^ M
+  let ex := (bits / 2 ^ M) % 2 ^ E
+  let negative := (bits / 2 ^ (M + E)) % 2 == 1
+  if ex == 2 ^ E - 1 then none
+  else
+    let m : Nat := if ex == 0 then mant else mant + 2 ^ M
+    let e : Int := (if ex == 0 then (1 : Int) else (ex : Int)) - (bias α : Int) - (M : Int)
+    some ⟨if negative then -(Int.ofNat m) else Int.ofNat m, e⟩
+
+/-- `u = 2^uExp`: `2⁻⁵³` / `2⁻²⁴`. -/
+def rmUExp (α : Type) [Sample α] : Int := -((Sample.mant α : Int) + 1)
+/-- `lo = 2^(1−bias)`: `2⁻¹⁰²²` / `2⁻¹²⁶`. -/
+def rmLo (α : Type) [Sample α] : Dy := ⟨1, 1 - (bias α : Int)⟩
+/-- `hi = (2 − 2^(−mant))·2^bias = (2^(mant+1) − 1)·2^(bias−mant)`. -/
+def rmHi (α : Type) [Sample α] : Dy :=
+  ⟨Dy.two (Sample.mant α + 1) - 1, (bias α : Int) - (Sample.mant α : Int)⟩
+/-- `N = 2^(mant+1)`: `2⁵³` / `2²⁴`. -/
+def rmN (α : Type) [Sample α] : Nat := 2 ^ (Sample.mant α + 1)
+
+/-- `InRange lo hi x := x = 0 ∨ (lo ≤ |x| ∧ |x| ≤ hi)` -/
+@[inline] def inRange (α : Type) [Sample α] (x : Dy) : Bool :=
+  x.isZero || ((rmLo α).le x.abs && x.abs.le (rmHi α))
+
+/-- `|r − x| ≤ u·|x|`, i.e. `∃ δ, |δ| ≤ u ∧ r = x·(1+δ)`. -/
+@[inline] def relErrOk (α : Type) [Sample α] (r x : Dy) : Bool :=
+  (r.sub x).abs.le (x.abs.scale2 (rmUExp α))
+
+/-- Values added to `Grids.full` for the rounding laws: powers of two over the whole exponent range
+with their `±1 ulp` neighbours, values at the overflow threshold (`2^bias`, `√max_value ± ulps`) and at
+the underflow threshold (largest subnormal, `min_normal + ulp`, `√min_normal ± ulps`, subnormals), values
+whose PRODUCT is subnormal or underflows to `0` (`2⁻⁶⁰⁰` for f64 / `2⁻⁷⁴` for f32 and neighbours,
+`2^(−bias/2−10)`, three times and a third of these), `2^(mant+1) ± ulp`, and negatives. -/
+def roundExtras (α : Type) [Num α] [Sample α] : Array α := Id.run do
+  let b : Int := (bias α : Int)
+  let M : Int := (Sample.mant α : Int)
+  let mx : α := Num.maxValue
+  let minNorm : α := pow2 α (1 - b)
+  let pred (x : α) : α := Sample.ofBits (Sample.bits x - 1)
+  let third : α := (Sample.lits : Array α)[1]!
+  let mut out : Array α := #[]
+  -- powers of two and neighbours
+  for k in [b, b - 1, b - 2, b / 2, b / 2 + 1, 10, M, M + 1, -1, -10, -M - 1, -(b / 2), -(b / 2) - 10,
+      -(b * 600 / 1023), 3 - b, 2 - b] do
+    let p := pow2 α k
+    out := out ++ #[p, ulps p 1, pred p]
+  -- thresholds
+  let sm := Num.sqrt mx
+  let sn := Num.sqrt minNorm
+  out := out ++ #[sm, ulps sm 1, ulps sm 2, pred sm, pred (pred sm), sn, ulps sn 1, ulps sn 2, pred sn,
+    pred (pred sn), pred minNorm, ulps minNorm 1, ulps minNorm 2, pred (pred minNorm)]
+  -- subnormals
+  out := out ++ #[Sample.ofBits 2, Sample.ofBits 3, Sample.ofBits ((1 : UInt64) <<< (Sample.mant α - 1).toUInt64),
+    Sample.ofBits (((1 : UInt64) <<< (Sample.mant α - 1).toUInt64) + 5),
+    Sample.ofBits (((1 : UInt64) <<< (Sample.mant α - 3).toUInt64) + 3)]
+  -- 3·2ᵏ, (1/3)·2ᵏ (exact scalings of `3`, `1/3`) with small / large `k`
+  for k in [-(b / 2) - 10, -(b * 600 / 1023), 3 - b, b / 2, b - 2] do
+    out := out ++ #[Num.mul (Num.ofNat 3) (pow2 α k), Num.mul third (pow2 α k)]
+  -- negatives
+  let negs := out.extract 0 out.size |>.filterMap fun x =>
+    if (Sample.bits x).toNat % 3 == 0 then some (neg x) else none
+  return out ++ negs
+
+/-- `count` pseudo-random values over the WHOLE finite range (biased exponent uniform in
+`0 … 2^expBits − 2`, so subnormals and the top binade occur), 1 in 3 negative.  Fixed seed. -/
+def randAll (α : Type) [Num α] [Sample α] (seed : UInt64) (count : Nat) : Array α := Id.run do
+  let mut s := seed
+  let mut out : Array α := #[]
+  for _ in [0:count] do
+    s := lcg s; let r1 := lcgOut s
+    s := lcg s; let r2 := lcgOut s
+    s := lcg s; let r3 := lcgOut s
+    s := lcg s; let r4 := lcgOut s
+    out := out.push (mk α (r4 % 3 == 0) (r3 % (2 ^ Sample.expBits α - 1)) (r1 * 2 ^ 31 + r2))
+  return out
+
+def roundGrid (g : Grids α) : Array α := g.full ++ roundExtras α ++ randAll α 0xD1B54A32D192ED03 120
+
+/-- The grid with its values decoded once. -/
+@[inline] def decoded (grid : Array α) : Array (α × Option Dy) := grid.map fun a => (a, dyOf? a)
+
+/-- Shared body of `Round.Model.add` / `.mul`: `op` the float operation, `ex` the exact one. -/
+@[specialize] def check_Round_bin (op : α → α → α) (ex : Dy → Dy → Dy) (guarded : Bool)
+    (grid : Array α) : Res := Id.run do
+  let mut r : Res := {}
+  let dg := decoded grid
+  for (a, va?) in dg do
+    if let some va := va? then
+      for (b, vb?) in dg do
+        if let some vb := vb? then
+          let x := ex va vb
+          if !guarded || inRange α x then
+            let c := op a b
+            let ok := match dyOf? c with
+              | none => false
+              | some vc => relErrOk α vc x
+            r := r.add ok fun _ => s!"a={sh a} b={sh b} result={sh c}"
+  return r
+
+/-- `add : ∀ a b, fin a → fin b → InRange lo hi (val a + val b) →
+    fin (Num.add a b) ∧ ∃ δ, |δ| ≤ u ∧ val (Num.add a b) = (val a + val b) * (1 + δ)` -/
+@[specialize] def check_Round_add (guarded : Bool) (grid : Array α) : Res :=
+  check_Round_bin (α := α) Num.add Dy.add guarded grid
+
+/-- `mul : ∀ a b, fin a → fin b → InRange lo hi (val a * val b) →
+    fin (Num.mul a b) ∧ ∃ δ, |δ| ≤ u ∧ val (Num.mul a b) = (val a * val b) * (1 + δ)` -/
+@[specialize] def check_Round_mul (guarded : Bool) (grid : Array α) : Res :=
+  check_Round_bin (α := α) Num.mul Dy.mul guarded grid
+
+/-- `div : ∀ a b, fin a → fin b → val b ≠ 0 → InRange lo hi (val a / val b) →
+    fin (Num.div a b) ∧ ∃ δ, |δ| ≤ u ∧ val (Num.div a b) = (val a / val b) * (1 + δ)`
+multiplied through by `|val b|`:  guard `va = 0 ∨ lo·|vb| ≤ |va| ≤ hi·|vb|`,
+conclusion `|q·vb − va| ≤ u·|va|`. -/
+@[specialize] def check_Round_div (guarded : Bool) (grid : Array α) : Res := Id.run do
+  let mut r : Res := {}
+  let dg := decoded grid
+  for (a, va?) in dg do
+    if let some va := va? then
+      for (b, vb?) in dg do
+        if let some vb := vb? then
+          if !vb.isZero then
+            let inR := va.isZero ||
+              (((rmLo α).mul vb.abs).le va.abs && va.abs.le ((rmHi α).mul vb.abs))
+            if !guarded || inR then
+              let c := Num.div a b
+              let ok := match dyOf? c with
+                | none => false
+                | some q => ((q.mul vb).sub va).abs.le (va.abs.scale2 (rmUExp α))
+              r := r.add ok fun _ => s!"a={sh a} b={sh b} result={sh c}"
+  return r
+
+/-- `ofNat : ∀ k, k ≤ N → fin (Num.ofNat k) ∧ val (Num.ofNat k) = k`; `ks` is the list of `k` (the
+caller passes `k ≤ N` for the law, `k > N` for the converse). -/
+def check_Round_ofNat (α : Type) [Num α] [Sample α] (ks : Array Nat) : Res := Id.run do
+  let mut r : Res := {}
+  for k in ks do
+    let c : α := Num.ofNat k
+    let ok := match dyOf? c with
+      | none => false
+      | some v => v.eq (Dy.ofNat k)
+    r := r.add ok fun _ => s!"k={k} ofNat k={sh c}"
+  return r
+
+/-- `0..64`, `100`, `1000`, `2¹⁶ ± 1`, `2²⁴ − 1, 2²⁴, 2²⁴ + 1`, `2⁵³ − 1, 2⁵³`, and `N − 1, N`: those `≤ N`. -/
+def natKsLe (α : Type) [Sample α] : Array Nat :=
+  ((Array.range 65) ++ #[100, 1000, 2 ^ 16 - 1, 2 ^ 16 + 1, 2 ^ 24 - 1, 2 ^ 24, 2 ^ 24 + 1, 2 ^ 53 - 1,
+    2 ^ 53, rmN α - 1, rmN α]).filter (· ≤ rmN α)
+/-- odd numbers above `N` (none is representable): `N + 1, N + 3, 2N + 1`, and `2⁵³ + 1`. -/
+def natKsGt (α : Type) [Sample α] : Array Nat :=
+  #[rmN α + 1, rmN α + 3, 2 * rmN α + 1, 2 ^ 53 + 1]
+
+/-- `half : fin Num.half ∧ val Num.half = 1 / 2` -/
+def check_Round_half (α : Type) [Num α] [Sample α] : Res :=
+  ({} : Res).add (match dyOf? (Num.half : α) with
+    | none => false
+    | some v => v.eq ⟨1, -1⟩) fun _ => s!"half={sh (Num.half : α)}"
+
+/-- `lt : ∀ a b, fin a → fin b → (Num.lt a b = true ↔ val a < val b)` -/
+@[specialize] def check_Round_lt (grid : Array α) : Res := Id.run do
+  let mut r : Res := {}
+  let dg := decoded grid
+  for (a, va?) in dg do
+    if let some va := va? then
+      for (b, vb?) in dg do
+        if let some vb := vb? then
+          r := r.add (Num.lt a b == va.lt vb) fun _ => s!"a={sh a} b={sh b}"
+  return r
+
+/-- `notNaN : ∀ a, fin a → Num.isNaN a = false` -/
+@[specialize] def check_Round_notNaN (grid : Array α) : Res := Id.run do
+  let mut r : Res := {}
+  for a in grid do
+    if (dyOf? a).isSome then r := r.add (Num.isNaN a == false) fun _ => s!"a={sh a}"
+  return r
+
+/-- The instantiation itself: `fin` (decoded from the bits) is "finite" as `Num` sees it
+(`lt (abs a) infinity`), `hi = val max_value`, `lo = val min_normal`, and the scalar fields
+`0 ≤ u < 1`, `0 < lo ≤ 1`, `N ≤ hi`. -/
+@[specialize] def check_Round_consts (grid : Array α) : Res := Id.run do
+  let mut r : Res := {}
+  for a in grid do
+    r := r.add ((dyOf? a).isSome == fin a) fun _ => s!"fin: a={sh a}"
+  let u : Dy := ⟨1, rmUExp α⟩
+  let one : Dy := ⟨1, 0⟩
+  let zero : Dy := ⟨0, 0⟩
+  r := r.add (match dyOf? (Num.maxValue : α) with | some v => v.eq (rmHi α) | none => false)
+    fun _ => "hi ≠ val max_value"
+  r := r.add (match dyOf? (pow2 α (1 - (bias α : Int))) with | some v => v.eq (rmLo α) | none => false)
+    fun _ => "lo ≠ val min_normal"
+  r := r.add (zero.le u && u.lt one) fun _ => "0 ≤ u < 1"
+  r := r.add (zero.lt (rmLo α) && (rmLo α).le one) fun _ => "0 < lo ≤ 1"
+  r := r.add ((Dy.ofNat (rmN α)).le (rmHi α)) fun _ => "N ≤ hi"
+  return r
+
+end RoundModel
 
 end Kodama.LawsSample
